@@ -328,25 +328,47 @@ def refine(kind: str, our: dict, side: dict, ps, obs, pc: dict) -> str:
     return kind
 
 
-def check_pair(our: dict, pc: dict):
+_PEERS: dict = {}
+_PCS: dict = {}
+_PEERS_MAX = 20000
+
+
+def peer_side(pc: dict, pkey=None) -> tuple:
+    """Reference side of a peer OPEN: bytes, summary (or the decoding error), ADD-PATH families to query.
+    A pure function of the description, memoised per worker when the caller supplies a hashable key."""
+    if pkey is not None:
+        hit = _PEERS.get(pkey)
+        if hit is not None:
+            return hit
+    body = peer_body(pc)
+    ps = err = None
+    try:
+        ps = negotiate.summarize(wire.decode_open_9072(body))
+    except wire.RefError as e:
+        err = e
+    universe = sorted(set(f for _, f in FAMS) | (set(ps['addpath_all']) if ps else set()))
+    res = (body, ps, err, universe)
+    if pkey is not None:
+        if len(_PEERS) >= _PEERS_MAX:
+            _PEERS.clear()
+        _PEERS[pkey] = res
+    return res
+
+
+def check_pair(our: dict, pc: dict, pkey=None):
     """-> (violations [(signature, what)], outcome key, nontrivial)"""
     side = our_side(our)
     if side['error']:
         return [], ('our-side-unusable',), False  # L1 reports it once per configuration
-    body = peer_body(pc)
-    exp = None
-    ps = None
-    try:
-        ps = negotiate.summarize(wire.decode_open_9072(body))
-    except wire.RefError as e:
-        exp = negotiate.expected_unparsable(e)
-    if exp is None:
+    body, ps, err, universe = peer_side(pc, pkey)
+    if err is not None:
+        exp = negotiate.expected_unparsable(err)
+    else:
         exp = negotiate.expected(side['summary'], ps, our['las'], peer_as_of(our))
         if our['las'] > 65535 and not our['asn4']:
             # contradictory configuration (4-octet AS, capability disabled): the AS cannot be advertised at all;
             # what Negotiated.local_as holds then is not asserted
             exp['fields']['local_as'].add(wire.AS_TRANS)
-    universe = sorted(set(f for _, f in FAMS) | (set(ps['addpath_all']) if ps else set()))
     obs = establish(side, body, universe)
     viols = []
     for kind, detail in negotiate.judge(exp, obs):
@@ -722,8 +744,13 @@ def _work(task):
             case = _case_of(layer, our)
         elif layer == 'pair':
             our, p = pair_at(k, i)
-            pc = peer_case(p)
-            viols, key, nt = check_pair(our, pc)
+            pkey = tuple(p.values())
+            pc = _PCS.get(pkey)
+            if pc is None:
+                if len(_PCS) >= _PEERS_MAX:
+                    _PCS.clear()
+                pc = _PCS[pkey] = peer_case(p)
+            viols, key, nt = check_pair(our, pc, pkey)
             case = _case_of(layer, our, pc)
         elif layer == 'seq':
             our, pc = seq_at(i)
